@@ -8,6 +8,8 @@ DEDUCTIVE = [
     ("clustering", "kneeliverse.clustering.average_linkage"),
     ("clustering", "lemma:single_linkage_monotone"),
     ("clustering", "lemma:complete_linkage_monotone"),
+    ("clustering", "lemma:single_linkage_labels_onto"), ("clustering", "lemma:complete_linkage_labels_onto"),
+    ("clustering", "lemma:centroid_linkage_labels_onto"), ("clustering", "lemma:average_linkage_labels_onto"),
 ]
 EXPLANATION = ("Each linkage is verified against a postcondition taken from the statement: one label per point, labels start at 0, "
                "step 0/1, and a new cluster starts at i exactly when the linkage distance (to the first point of the current run, "
